@@ -51,6 +51,9 @@ pub fn exec_fields(f0: &[&str]) -> String {
     if let Some(r) = crate::ops_chain::exec(f.as_slice()) {
         return r;
     }
+    if let Some(r) = crate::ops_deep::exec(f.as_slice()) {
+        return r;
+    }
     match f.as_slice() {
         ["numenc", v] => match parse_tree(v) {
             Some(Value::Number(n)) => {
